@@ -36,7 +36,7 @@ func init() {
 		Header:   "From Coq Require Import Uint63.\nFrom ZenoV Require Import Lib.Harness Rate.Bucket Rate.RateHarness.\nOpen Scope list_scope.\nOpen Scope uint63_scope.\n",
 		CaseType: "acase",
 		Footer:   "\nDefinition DIFF := Eval vm_compute in adiffs cases.\nPrint DIFF.\nDefinition MON := Eval vm_compute in amons cases.\nPrint MON.\n",
-		Rule: "one case = (max-retry 0-2, status script of 1-4 answers from {429,408,425,500,503,200,404}, 2-3 items for one fresh host) run through the real " +
+		Rule: "one case = (max-retry 0-2, status script of 1-4 answers from {429,408,425,500,502,503,504,599,200,404}, 2-3 items for one fresh host) run through the real " +
 			"archiver; an item is submitted when the previous one has come back, the last one is watched for 1.5 s; distinct by input text; " +
 			"non-trivial when a throttling status was answered and a later item was submitted",
 		Setup:    setupArchRL,
@@ -66,6 +66,7 @@ func must(err error) {
 }
 
 func setupArchRL() {
+	arlPend = append(arlPend, corpusLines()...) // read before the Chdir below
 	var err error
 	arlDir, err = os.MkdirTemp("", "zv-archrl")
 	must(err)
@@ -107,7 +108,7 @@ func setupArchRL() {
 	}()
 }
 
-var arlStatuses = []int{429, 429, 429, 408, 425, 500, 503, 503, 200, 404}
+var arlStatuses = []int{429, 429, 408, 425, 500, 500, 500, 502, 503, 504, 599, 200, 404}
 
 func genArchRL(r *Rng, i int, tier string) string {
 	retry := []int{0, 0, 1}[r.Intn(3)]
@@ -356,4 +357,23 @@ func coqFl(f float64) string {
 		c = "FN"
 	}
 	return fmt.Sprintf("(%s %d %d)", c, m, e+1100)
+}
+
+// corpusLines: the stored inputs the framework will run first (flag -corpus), so that they can be
+// executed concurrently with the generated ones instead of one after the other.
+func corpusLines() []string {
+	var out []string
+	for i, a := range os.Args {
+		if a == "-corpus" && i+1 < len(os.Args) {
+			if raw, err := os.ReadFile(os.Args[i+1]); err == nil {
+				for _, l := range strings.Split(string(raw), "\n") {
+					l = strings.TrimSpace(l)
+					if l != "" && !strings.HasPrefix(l, "#") {
+						out = append(out, l)
+					}
+				}
+			}
+		}
+	}
+	return out
 }
